@@ -266,6 +266,10 @@ impl DepthFirstSearch {
         goal.status = GoalStatus::InProgress;
         goal.depth = depth;
 
+        // Solutions found for THIS goal (self.solutions is shared by all recursion
+        // levels and also holds the solutions of sub-goals proven along the way)
+        let mut solutions_for_this_goal = 0usize;
+
         // Try each candidate rule
         for rule_name in goal.candidate_rules.clone() {
             self.path.push(rule_name.clone());
@@ -287,10 +291,18 @@ impl DepthFirstSearch {
                             path: self.path.clone(),
                             bindings: goal.bindings.to_map(),
                         });
+                        solutions_for_this_goal += 1;
 
                         // If we only want one solution OR we've found enough, stop searching
-                        if self.max_solutions == 1 || self.solutions.len() >= self.max_solutions {
-                            return true; // keep changes
+                        // (a sub-goal only needs one proof for its parent to go on)
+                        if self.max_solutions == 1
+                            || depth > 0
+                            || self.solutions.len() >= self.max_solutions
+                        {
+                            // keep changes; close the frame so that an enclosing
+                            // candidate can still roll them back if it fails
+                            facts.commit_undo_frame();
+                            return true;
                         }
 
                         // Otherwise (max_solutions > 1 and not enough yet), rollback and continue
@@ -314,12 +326,16 @@ impl DepthFirstSearch {
                                         path: self.path.clone(),
                                         bindings: goal.bindings.to_map(),
                                     });
+                                    solutions_for_this_goal += 1;
 
                                     // If we only want one solution OR we've found enough, stop searching
                                     if self.max_solutions == 1
+                                        || depth > 0
                                         || self.solutions.len() >= self.max_solutions
                                     {
-                                        return true; // keep changes
+                                        // keep changes; close the frame (see above)
+                                        facts.commit_undo_frame();
+                                        return true;
                                     }
 
                                     // Otherwise, rollback and continue searching
@@ -370,8 +386,9 @@ impl DepthFirstSearch {
             facts.rollback_undo_frame();
         }
 
-        // If we found at least one solution (even if less than max_solutions), consider it proven
-        if !self.solutions.is_empty() {
+        // If we found at least one solution for this goal (even if less than max_solutions),
+        // consider it proven
+        if solutions_for_this_goal > 0 {
             goal.status = GoalStatus::Proven;
             // For negated goals, finding a proof means negation fails
             return !goal.is_negated;
